@@ -45,10 +45,65 @@ func overlayMap() map[string]string {
 }
 
 type ex struct {
-	recv   string
-	field  string // the map field
-	parsed bool
-	paths  [][]string
+	recv    string
+	field   string // the map field
+	parsed  bool
+	paths   [][]string
+	methods map[string]*ast.FuncDecl // the other methods of APIRegistry declared in the file (helpers are inlined)
+	depth   int
+}
+
+// helperPaths: a call r.helper(...) of another method of the registry declared in the same file is inlined:
+// every path through its body (with the helper's own receiver name), without the closing "ret"; nil = not a helper call
+func (e *ex) helperPaths(c *ast.CallExpr) [][]string {
+	sel, ok := c.Fun.(*ast.SelectorExpr)
+	if !ok {
+		return nil
+	}
+	id, ok := sel.X.(*ast.Ident)
+	if !ok || id.Name != e.recv {
+		return nil
+	}
+	fd := e.methods[sel.Sel.Name]
+	if fd == nil || fd.Body == nil {
+		return nil
+	}
+	if e.depth >= 4 || len(fd.Recv.List) != 1 || len(fd.Recv.List[0].Names) != 1 {
+		e.parsed = false
+		return [][]string{{}}
+	}
+	sub := &ex{recv: fd.Recv.List[0].Names[0].Name, field: e.field, parsed: true, methods: e.methods, depth: e.depth + 1}
+	sub.walk(fd.Body.List, nil, func(p []string) {
+		sub.paths = append(sub.paths, append(append([]string(nil), p...), "ret"))
+	})
+	if !sub.parsed {
+		e.parsed = false
+	}
+	var out [][]string
+	for _, p := range sub.paths {
+		q := append([]string(nil), p[:len(p)-1]...)
+		for _, ev := range q {
+			if strings.HasPrefix(ev, "defer") { // a deferred unlock inside a helper runs when the HELPER returns
+				e.parsed = false
+			}
+		}
+		out = append(out, q)
+	}
+	if len(out) == 0 {
+		out = [][]string{{}}
+	}
+	return out
+}
+
+// product: every concatenation of one alternative of a with one of b
+func product(a, b [][]string) [][]string {
+	var out [][]string
+	for _, x := range a {
+		for _, y := range b {
+			out = append(out, append(append([]string(nil), x...), y...))
+		}
+	}
+	return out
 }
 
 // lockOp: r.Lock() / r.RWMutex.Lock() ... -> event name, or ""
@@ -87,12 +142,14 @@ func (e *ex) isMap(x ast.Expr) bool {
 	return ok && id.Name == e.recv
 }
 
-// reads: number of occurrences of r.<field> inside an expression (function literals make the result unknown)
-func (e *ex) reads(n ast.Node) []string {
-	var out []string
+// reads: the events of evaluating an expression, as a list of alternatives (more than one when an inlined helper
+// branches); function literals make the result unknown
+func (e *ex) reads(n ast.Node) [][]string {
+	out := [][]string{{}}
 	if n == nil {
-		return nil
+		return out
 	}
+	emit := func(ev string) { out = product(out, [][]string{{ev}}) }
 	ast.Inspect(n, func(x ast.Node) bool {
 		switch v := x.(type) {
 		case *ast.FuncLit:
@@ -100,12 +157,19 @@ func (e *ex) reads(n ast.Node) []string {
 			return false
 		case *ast.CallExpr:
 			if op := e.lockOp(v); op != "" {
-				out = append(out, op)
+				emit(op)
+				return false
+			}
+			if hp := e.helperPaths(v); hp != nil {
+				for _, a := range v.Args { // arguments are evaluated before the call
+					out = product(out, e.reads(a))
+				}
+				out = product(out, hp)
 				return false
 			}
 		case ast.Expr:
 			if e.isMap(v) {
-				out = append(out, "read")
+				emit("read")
 				return false
 			}
 		}
@@ -122,66 +186,76 @@ func (e *ex) walk(stmts []ast.Stmt, prefix []string, k func(prefix []string)) {
 	}
 	st, rest := stmts[0], stmts[1:]
 	cont := func(p []string) { e.walk(rest, p, k) }
-	add := func(evs ...string) []string { return append(append([]string(nil), prefix...), evs...) }
+	// each: continue once per alternative
+	each := func(alts [][]string, f func(p []string)) {
+		for _, a := range alts {
+			f(append(append([]string(nil), prefix...), a...))
+		}
+	}
+	one := func(ev string) [][]string { return [][]string{{ev}} }
 	switch s := st.(type) {
 	case *ast.ExprStmt:
-		cont(add(e.reads(s.X)...))
+		each(e.reads(s.X), cont)
 	case *ast.DeferStmt:
 		switch e.lockOp(s.Call) {
 		case "unlockW":
-			cont(add("deferUnlockW"))
+			each(one("deferUnlockW"), cont)
 		case "unlockR":
-			cont(add("deferUnlockR"))
+			each(one("deferUnlockR"), cont)
 		case "":
-			cont(add(e.reads(s.Call)...))
+			each(e.reads(s.Call), cont)
 		default:
 			e.parsed = false
 			cont(prefix)
 		}
 	case *ast.AssignStmt:
-		var evs []string
+		alts := [][]string{{}}
 		for _, r := range s.Rhs {
-			evs = append(evs, e.reads(r)...)
+			alts = product(alts, e.reads(r))
 		}
 		for _, l := range s.Lhs {
 			if ix, ok := l.(*ast.IndexExpr); ok && e.isMap(ix.X) {
-				evs = append(evs, e.reads(ix.Index)...)
-				evs = append(evs, "write")
+				alts = product(product(alts, e.reads(ix.Index)), one("write"))
 			} else if e.isMap(l) {
-				evs = append(evs, "write") // the whole map is replaced
+				alts = product(alts, one("write")) // the whole map is replaced
 			} else {
-				evs = append(evs, e.reads(l)...)
+				alts = product(alts, e.reads(l))
 			}
 		}
-		cont(add(evs...))
+		each(alts, cont)
 	case *ast.DeclStmt:
-		cont(add(e.reads(s)...))
+		each(e.reads(s), cont)
 	case *ast.IncDecStmt:
-		cont(add(e.reads(s.X)...))
+		each(e.reads(s.X), cont)
 	case *ast.ReturnStmt:
-		var evs []string
+		alts := [][]string{{}}
 		for _, r := range s.Results {
-			evs = append(evs, e.reads(r)...)
+			alts = product(alts, e.reads(r))
 		}
-		e.paths = append(e.paths, add(append(evs, "ret")...))
+		each(product(alts, one("ret")), func(p []string) { e.paths = append(e.paths, p) })
 	case *ast.BlockStmt:
 		e.walk(s.List, prefix, cont)
 	case *ast.IfStmt:
-		p := prefix
+		starts := [][]string{prefix}
 		if s.Init != nil {
-			e.walk([]ast.Stmt{s.Init}, p, func(q []string) { p = q })
+			starts = nil
+			e.walk([]ast.Stmt{s.Init}, prefix, func(q []string) { starts = append(starts, q) })
 		}
-		p = append(append([]string(nil), p...), e.reads(s.Cond)...)
-		e.walk(s.Body.List, p, cont)
-		switch el := s.Else.(type) {
-		case nil:
-			cont(p)
-		case *ast.BlockStmt:
-			e.walk(el.List, p, cont)
-		case *ast.IfStmt:
-			e.walk([]ast.Stmt{el}, p, cont)
-		default:
-			e.parsed = false
+		for _, p0 := range starts {
+			for _, c := range e.reads(s.Cond) {
+				p := append(append([]string(nil), p0...), c...)
+				e.walk(s.Body.List, p, cont)
+				switch el := s.Else.(type) {
+				case nil:
+					cont(p)
+				case *ast.BlockStmt:
+					e.walk(el.List, p, cont)
+				case *ast.IfStmt:
+					e.walk([]ast.Stmt{el}, p, cont)
+				default:
+					e.parsed = false
+				}
+			}
 		}
 	case *ast.EmptyStmt:
 		cont(prefix)
@@ -229,7 +303,18 @@ func main() {
 		}
 		return false
 	})
-	e := &ex{field: field, parsed: field != ""}
+	e := &ex{field: field, parsed: field != "", methods: map[string]*ast.FuncDecl{}}
+	for _, d := range f.Decls {
+		if fd, ok := d.(*ast.FuncDecl); ok && fd.Recv != nil && len(fd.Recv.List) == 1 && fd.Name.Name != "AddCollection" {
+			t := fd.Recv.List[0].Type
+			if st, ok := t.(*ast.StarExpr); ok {
+				t = st.X
+			}
+			if id, ok := t.(*ast.Ident); ok && id.Name == "APIRegistry" {
+				e.methods[fd.Name.Name] = fd
+			}
+		}
+	}
 	found := false
 	for _, d := range f.Decls {
 		fd, ok := d.(*ast.FuncDecl)
